@@ -234,7 +234,7 @@ def _payload(ctx, master):
     # every record write stores _placement_data(instance)
     writes = 0
     for cls in (master, loader):
-        for func in cls.methods.values():
+        for func in cls.live_methods():
             graph, ops = M.record_ops(ctx, func)
             fdefs = M.local_defs(func)
             for node, op, rec, call in ops:
@@ -357,7 +357,7 @@ def _unsnapshotted(ctx, master):
     }
     count = 0
     for mod in mods:
-        for func in mod.all_functions():
+        for func in mod.live_functions():
             for sub in K.walk_no_nested(func.node):
                 tgts = []
                 if isinstance(sub, ast.Assign):
@@ -385,7 +385,7 @@ def _unsnapshotted(ctx, master):
     # callers of the writers outside Cell: only Loader.restore_placement
     loader = index.get_class(K.LOADER, 'Loader')
     for cls in (loader, master):
-        for func in cls.methods.values():
+        for func in cls.live_methods():
             graph = None
             for sub in K.walk_no_nested(func.node):
                 if not (isinstance(sub, ast.Call) and K.is_meth(
@@ -477,7 +477,7 @@ def _removal(ctx, master):
     loader = index.get_class(K.LOADER, 'Loader')
     n = 0
     for cls in (loader, master):
-        for f in cls.methods.values():
+        for f in cls.live_methods():
             for sub in K.walk_no_nested(f.node):
                 if isinstance(sub, ast.Call) and K.is_meth(
                         sub, 'remove_app') and \
@@ -491,7 +491,7 @@ def _removal(ctx, master):
     ctx.require(n >= 1, 'call of Cell.remove_app')
     # finished before scheduled is deleted
     for cls in (loader, master):
-        for f in cls.methods.values():
+        for f in cls.live_methods():
             graph = None
             for sub in K.walk_no_nested(f.node):
                 if isinstance(sub, ast.Call) and K.is_meth(sub, 'delete') \
@@ -519,7 +519,7 @@ def _record_owner(ctx):
                'ensure_exists')
     inside = 0
     for mod in index.modules.values():
-        for func in mod.all_functions():
+        for func in mod.live_functions():
             defs = M.local_defs(func)
             for sub in K.walk_no_nested(func.node):
                 if not isinstance(sub, ast.Call):
